@@ -137,6 +137,10 @@ def zip_bytes(node):
             else:
                 data = node_bytes(m) or b""
             zf.writestr(zi, data)
+            if m.get("mode") == 0:
+                # writestr replaces "no attributes at all" by 0600: put the zero back (the central directory is
+                # written from these objects on close) - a member without any stored mode
+                zf.filelist[-1].external_attr = 0
     data = bio.getvalue()
     if "truncate" in node:
         data = data[:node["truncate"]]
@@ -257,7 +261,9 @@ ATTR_FILE_NAMES = ["a", "b.txt", "c.txt", "d.log", "e.LOG", "f.tar.gz", "README"
                    "k.c", "k.h", "long-file-name.txt", "s p.txt", "0", "1", "true", "é.txt", "Émile", "日本.md", "ź", "ß.c",
                    "Name", "Size", "x.Extension", "Mode",
                    # characters that mean something to a pattern engine but nothing to `=`: exact, case-sensitive
-                   "data[1].txt", "Data[1].txt", "q(1)+.c", "Q(1)+.c", "w{2}.h", "back\\slash", "c^d$.e", "p|q.r"]
+                   "data[1].txt", "Data[1].txt", "q(1)+.c", "Q(1)+.c", "w{2}.h", "back\\slash", "c^d$.e", "p|q.r",
+                   # extensions that look like numbers, next to ones that do not (man pages, rotated logs)
+                   "ls.1", "syslog.2", "m.10", "x.9a", "y.1x", "old.007"]
 ATTR_DIR_NAMES = ["src", "doc", "a", "b", "t1", "t2", "lib", "x.d", "bin", "size", ".git2", "Zed", "d[0]", "back\\dir"]
 
 
